@@ -39,7 +39,7 @@ var behaviours = []string{"base", "keep", "addx", "dropa", "rename", "error", "f
 var quickBehaviours = []string{"base", "keep", "addx", "dropa", "rename", "error", "fatal", "fatal-nomsg", "warn", "req1", "req4", "req5", "reqalt", "reqalt-labelvalue", "reqalt-labelkey", "reqalt-kind", "reqalt-apiversion", "reqalt-key"}
 
 // Observed states (prepared by real reconciles, then perturbed).
-var observedStates = []string{"none", "a", "ab", "a-deleted", "a-terminating", "a-foreign", "a-uncontrolled", "a-foreign-same-name", "a-client-side-managed"}
+var observedStates = []string{"none", "a", "ab", "a-deleted", "a-terminating", "a-foreign", "a-uncontrolled", "a-foreign-same-name", "a-client-side-managed", "ab-a-foreign"}
 
 func names(d map[string]*fnv1.Resource) []string {
 	var out []string
@@ -225,7 +225,7 @@ func prepare(state string) *simkube.Store {
 	switch state {
 	case "none":
 		base = []string{"none"}
-	case "ab":
+	case "ab", "ab-a-foreign":
 		base = []string{"base"}
 	}
 	setComposition(s, base)
@@ -245,7 +245,9 @@ func prepare(state string) *simkube.Store {
 			now := metav1.Now()
 			u.SetDeletionTimestamp(&now)
 		})
-	case "a-foreign":
+	case "a-foreign", "ab-a-foreign":
+		// (ab-a-foreign: the XR's other resource, referenced after this one,
+		// is still its own.)
 		s.Mutate(simkube.KeyOf(as[0]), func(u *unstructured.Unstructured) {
 			u.SetOwnerReferences([]metav1.OwnerReference{{APIVersion: "example.org/v1", Kind: "XThing", Name: "other", UID: "foreign-uid", Controller: ptr.To(true)}})
 		})
@@ -460,6 +462,18 @@ func pipelineBodyVia(r *explore.Run, rep *report.R, scName string, nsteps int, a
 		for rn := range final {
 			if !have[rn] {
 				r.Failf("success/missing", "steps %v observed-state %s: desired resource %q does not exist after a successful reconcile", steps, state, rn)
+			}
+		}
+		// ... once: an existing resource of the XR is updated, not doubled.
+		count := map[string][]string{}
+		for _, o := range xrh.ComposedOf(s, xrAfter.GetUID(), xrh.ComposedKinds...) {
+			if o.GetDeletionTimestamp() == nil {
+				count[xrh.ResourceNameOf(o)] = append(count[xrh.ResourceNameOf(o)], o.GetKind()+"/"+o.GetName())
+			}
+		}
+		for rn, objs := range count {
+			if len(objs) > 1 {
+				r.Failf("success/duplicate", "steps %v observed-state %s: after a successful reconcile the XR controls %d live resources for %q: %v (observed before: %v)", steps, state, len(objs), rn, objs, observed)
 			}
 		}
 	}
